@@ -17,7 +17,7 @@ def cases(tier):
         for wb in range(1, sm + 1):
             cs.append(('ops.signed_mult', dict(wa=wa, wb=wb)))
     for wa in (1, 2, 3, 5):
-        for k in (0, 1, 2, 5, 13):
+        for k in (0, 1, 2, 5, 13, 0xb5, 0xdead, 0xbad, 0xd):
             cs.append(('ops.operand_kinds', dict(wa=wa, k=k)))
     for w in range(1, 8 if tier == 'quick' else 11):
         for wb in (1, 3):
